@@ -320,46 +320,58 @@ theorem average_uses_only_candidates (p : Bool) (n : Nat) (bs : List Blk) :
   unfold average weightsValid
   simp only [hc]
 
-/-- **the averaged burnup is the heavy-metal-weighted mean** when no weighting parameter is set
-(`getWeight` = volume, which cancels): Σ HMᵢ·buᵢ / Σ HMᵢ. `vals = [massHmBOL, percentBu]`. -/
-theorem burnup_hm_weighted (bs : List Blk) (hv : ∀ b ∈ bs, b.vol ≠ 0)
-    (hs : rsum (bs.map (fun b => b.vals.getD 0 0)) ≠ 0) :
+/-- **the averaged burnup is the heavy-metal-weighted mean over the ELIGIBLE members** when no weighting
+parameter is set (`getWeight` = volume, which cancels): Σ HMᵢ·buᵢ / Σ HMᵢ over the candidates.
+`vals = [massHmBOL, percentBu]`. -/
+theorem burnup_hm_weighted (bs : List Blk) (hv : ∀ b ∈ candidates bs, b.vol ≠ 0)
+    (hs : rsum ((candidates bs).map (fun b => b.vals.getD 0 0)) ≠ 0) :
     weightedBurnup false bs =
-      some (wmean (bs.map (fun b => b.vals.getD 0 0)) (bs.map (fun b => b.vals.getD 1 0))) := by
-  have hw : bs.map (fun b => b.vals.getD 0 0 * getWeight false b / b.vol)
-      = bs.map (fun b => b.vals.getD 0 0) := by
+      some (wmean ((candidates bs).map (fun b => b.vals.getD 0 0))
+        ((candidates bs).map (fun b => b.vals.getD 1 0))) := by
+  have hw : (candidates bs).map (fun b => b.vals.getD 0 0 * getWeight false b / b.vol)
+      = (candidates bs).map (fun b => b.vals.getD 0 0) := by
     apply List.map_congr_left
     intro b hb
     have hvb := hv b hb
     have hg : getWeight false b = b.vol := by simp [getWeight, hvb]
     rw [hg]; field_simp
-  have hany : (bs.any fun b => b.vol == 0) = false := by
+  have hany : ((candidates bs).any fun b => b.vol == 0) = false := by
     simp only [List.any_eq_false, beq_iff_eq]
     exact fun b hb => hv b hb
   unfold weightedBurnup
   simp only [hany, hw, Bool.false_eq_true, if_false, hs, wmean]
 
-example : weightedBurnup false [⟨true, 2, 0, [3, 10]⟩, ⟨true, 6, 0, [1, 20]⟩] = some (25 / 2) := by
-  decide +kernel
+example : weightedBurnup false [⟨true, 2, 0, [3, 10]⟩, ⟨true, 6, 0, [1, 20]⟩, ⟨false, 1, 0, [5, 90]⟩]
+    = some (25 / 2) := by decide +kernel
 
 /-- with a weighting parameter the burnup weights are HM × parameter (volume still cancels) -/
-theorem burnup_param_weighted (bs : List Blk) (hv : ∀ b ∈ bs, b.vol ≠ 0) (hp : ∀ b ∈ bs, b.wparam ≠ 0)
-    (hs : rsum (bs.map (fun b => b.vals.getD 0 0 * b.wparam)) ≠ 0) :
+theorem burnup_param_weighted (bs : List Blk) (hv : ∀ b ∈ candidates bs, b.vol ≠ 0)
+    (hp : ∀ b ∈ candidates bs, b.wparam ≠ 0)
+    (hs : rsum ((candidates bs).map (fun b => b.vals.getD 0 0 * b.wparam)) ≠ 0) :
     weightedBurnup true bs =
-      some (wmean (bs.map (fun b => b.vals.getD 0 0 * b.wparam)) (bs.map (fun b => b.vals.getD 1 0))) := by
-  have hw : bs.map (fun b => b.vals.getD 0 0 * getWeight true b / b.vol)
-      = bs.map (fun b => b.vals.getD 0 0 * b.wparam) := by
+      some (wmean ((candidates bs).map (fun b => b.vals.getD 0 0 * b.wparam))
+        ((candidates bs).map (fun b => b.vals.getD 1 0))) := by
+  have hw : (candidates bs).map (fun b => b.vals.getD 0 0 * getWeight true b / b.vol)
+      = (candidates bs).map (fun b => b.vals.getD 0 0 * b.wparam) := by
     apply List.map_congr_left
     intro b hb
     have h1 := hv b hb
     have h2 := hp b hb
     have hg : getWeight true b = b.wparam * b.vol := by simp [getWeight, h1, h2]
     rw [hg]; field_simp
-  have hany : (bs.any fun b => b.vol == 0) = false := by
+  have hany : ((candidates bs).any fun b => b.vol == 0) = false := by
     simp only [List.any_eq_false, beq_iff_eq]
     exact fun b hb => hv b hb
   unfold weightedBurnup
   simp only [hany, hw, Bool.false_eq_true, if_false, hs, wmean]
+
+/-- **the averaged burnup, too, uses eligible members only**: non-candidates never enter. -/
+theorem burnup_uses_only_candidates (p : Bool) (bs : List Blk) :
+    weightedBurnup p bs = weightedBurnup p (candidates bs) := by
+  have hc : candidates (candidates bs) = candidates bs := by
+    simp [candidates, List.filter_filter]
+  unfold weightedBurnup
+  simp only [hc]
 
 /-! ## median block -/
 
